@@ -55,12 +55,14 @@ def opts_for(o, ir):
     return o
 
 
-def run_parallel(exe, inputs, workers=None):
+def run_parallel(exe, inputs, workers=2):
+    """extracted interpreters: process start-up under load costs more than it gains; two workers at most"""
     if not inputs:
         return []
-    workers = workers or max(1, min(vcheck.NCPU, 8))
+    if len(inputs) < 64:
+        return vcheck.run_model(exe, inputs)
     n = len(inputs)
-    size = max(1, (n + workers - 1) // workers)
+    size = (n + workers - 1) // workers
     chunks = [inputs[i:i + size] for i in range(0, n, size)]
     with ThreadPoolExecutor(len(chunks)) as ex:
         outs = list(ex.map(lambda c: vcheck.run_model(exe, c), chunks))
